@@ -44,10 +44,13 @@ func (gw *groupWriter) close() error {
 		// don't print begin/end messages if there's no buffered entries
 		return nil
 	}
-	if _, err := io.WriteString(gw.writer, gw.begin); err != nil {
-		return err
-	}
-	gw.buff.WriteString(gw.end)
-	_, err := io.Copy(gw.writer, &gw.buff)
+	// begin line, buffered output and end line go out in a single write so that
+	// groups of commands finishing at the same time cannot interleave
+	var block bytes.Buffer
+	block.WriteString(gw.begin)
+	block.Write(gw.buff.Bytes())
+	block.WriteString(gw.end)
+	gw.buff.Reset()
+	_, err := io.Copy(gw.writer, &block)
 	return err
 }
